@@ -70,6 +70,7 @@ func c06EncVal(v interface{}, base int64) string {
 		c := cloneDesc(d)
 		for id, i := range c.Ingesters {
 			i.Timestamp = c06Rel(i.Timestamp, base)
+			i.ReadOnlyUpdatedTimestamp = c06Rel(i.ReadOnlyUpdatedTimestamp, base)
 			c.Ingesters[id] = i
 		}
 		return "r^" + encDesc(c)
@@ -126,6 +127,33 @@ type c06Node struct {
 	kv     *memberlist.KV
 	rc, pc *memberlist.Client
 	gen    int
+	hook   *c06EncHook
+}
+
+// c06EncHook: the harness owns the codecs of its nodes. broadcastNewValue encodes the change of an update AFTER
+// the store lock has been released: Encode is exactly the point where another goroutine's merge of the same key
+// can run. A one-shot hook runs such a merge there, deterministically (see doCASInterleaved).
+type c06EncHook struct {
+	armed func(v interface{})
+	last  []byte // bytes produced by the Encode call that ran the hook
+	fired bool
+}
+
+type c06HookCodec struct {
+	codec.Codec
+	h *c06EncHook
+}
+
+func (hc c06HookCodec) Encode(v interface{}) ([]byte, error) {
+	f := hc.h.armed
+	if f == nil {
+		return hc.Codec.Encode(v)
+	}
+	hc.h.armed = nil
+	f(v)
+	b, err := hc.Codec.Encode(v)
+	hc.h.last, hc.h.fired = b, true
+	return b, err
 }
 
 type c06PoolMsg struct {
@@ -165,6 +193,7 @@ type c06Case struct {
 	// generator bookkeeping: next free delta per (key,id) so that every (id, timestamp) is written once
 	delta map[string]int
 	slept int
+	ppN   int // plain push/pulls so far: every second one is a JOIN push/pull (LocalState(true) / MergeRemoteState(_, true))
 }
 
 func (c *c06Case) now() int64 { return time.Now().Unix() - c.base }
@@ -173,7 +202,9 @@ func (c *c06Case) newNode(i int) *c06Node {
 	var cfg memberlist.KVConfig
 	flagext.DefaultValues(&cfg)
 	cfg.NodeName = "n" + strconv.Itoa(i)
-	cfg.Codecs = []codec.Codec{ring.GetCodec(), ring.GetPartitionRingCodec()}
+	hook := &c06EncHook{}
+	rcodec, pcodec := c06HookCodec{ring.GetCodec(), hook}, c06HookCodec{ring.GetPartitionRingCodec(), hook}
+	cfg.Codecs = []codec.Codec{rcodec, pcodec}
 	cfg.RetransmitMult = c.o.mult
 	cfg.LeftIngestersTimeout = time.Duration(c.o.lit) * time.Second
 	cfg.ObsoleteEntriesTimeout = time.Hour
@@ -190,15 +221,15 @@ func (c *c06Case) newNode(i int) *c06Node {
 		panic(err)
 	}
 	kv.VerifSetCasRetries(1)
-	rc, err := memberlist.NewClient(kv, ring.GetCodec())
+	rc, err := memberlist.NewClient(kv, rcodec)
 	if err != nil {
 		panic(err)
 	}
-	pc, err := memberlist.NewClient(kv, ring.GetPartitionRingCodec())
+	pc, err := memberlist.NewClient(kv, pcodec)
 	if err != nil {
 		panic(err)
 	}
-	return &c06Node{kv: kv, rc: rc, pc: pc}
+	return &c06Node{kv: kv, rc: rc, pc: pc, hook: hook}
 }
 
 func (c *c06Case) client(n int, key string) *memberlist.Client {
@@ -300,8 +331,16 @@ func (c *c06Case) applyRingOps(in interface{}, ops []string, t0 int64) (interfac
 			id := f[1]
 			delta, _ := strconv.Atoi(f[2])
 			mask, _ := strconv.Atoi(f[4])
-			d.Ingesters[id] = ring.InstanceDesc{Id: id, Addr: "addr-" + id, Zone: "z" + strconv.Itoa(c06Idx(c06RingIDs, id)%2), Timestamp: t0 - int64(delta) + c.base,
+			inst := ring.InstanceDesc{Id: id, Addr: "addr-" + id, Zone: "z" + strconv.Itoa(c06Idx(c06RingIDs, id)%2), Timestamp: t0 - int64(delta) + c.base,
 				State: codeState[f[3]], Tokens: c06Tokens(id, mask, c.o.clash)}
+			// mask bits 4 / 5: this heartbeat switches the instance to read-only / back to read-write (the lifecycler
+			// stamps the read-only change with the time of the same update)
+			if mask&16 != 0 {
+				inst.ReadOnly, inst.ReadOnlyUpdatedTimestamp = true, inst.Timestamp
+			} else if mask&32 != 0 {
+				inst.ReadOnly, inst.ReadOnlyUpdatedTimestamp = false, inst.Timestamp
+			}
+			d.Ingesters[id] = inst
 		case "rm":
 			delete(d.Ingesters, f[1])
 		default:
@@ -361,12 +400,41 @@ func (c *c06Case) applyPartOps(in interface{}, ops []string, t0 int64) (interfac
 	return d, nil
 }
 
-func (c *c06Case) doCAS(n int, key string, ops string) {
+func (c *c06Case) doCAS(n int, key string, ops string) { c.doCASx(n, key, ops, "") }
+
+// doCASx with other != "": while the broadcast of this CAS is being encoded (store lock released), a full state
+// holding a heartbeat of instance `other` for the same key is merged into the node (push/pull runs on its own
+// goroutine in a real node). Observed: the value handed to Encode on entry (= the change of the CAS) and what
+// the bytes that were queued for gossip decode to.
+func (c *c06Case) doCASx(n int, key string, ops string, other string) {
 	ev := "cas!" + itoa(n) + "!" + key + "!" + ops
 	opl := strings.Split(ops, "+")
 	var res string
 	var t0, t1 int64
 	before := c.nodes[n].kv.VerifStoreSnapshot()
+	var ilMsg, ilChg, ilEnc = "-", "-", "-"
+	hook := c.nodes[n].hook
+	if other != "" {
+		ev = "ci!" + itoa(n) + "!" + key + "!" + ops
+		dl, _ := c.nextDelta(key + other)
+		v, _ := c.applyRingOps(nil, []string{"hb:" + other + ":" + itoa(dl) + ":" + stateCode[pick(c.r, c06States)] + ":" + itoa(1+c.r.intn(15))}, c.now())
+		enc, err := ring.GetCodec().Encode(v)
+		if err != nil {
+			panic(err)
+		}
+		kvp := memberlist.KeyValuePair{Key: key, Value: enc, Codec: ring.GetCodec().CodecID()}
+		ser, _ := kvp.Marshal()
+		state := make([]byte, 4, 4+len(ser))
+		binary.BigEndian.PutUint32(state, uint32(len(ser)))
+		state = append(state, ser...)
+		_, content := c.decodeMsgK(ser, false, false)
+		hook.fired, hook.last = false, nil
+		hook.armed = func(v interface{}) {
+			ilChg = c06EncVal(v, c.base)
+			ilMsg = content
+			c.nodes[n].kv.MergeRemoteState(state, false)
+		}
+	}
 	p := guarded(func() {
 		t0 = c.now()
 		err := c.client(n, key).CAS(context.Background(), key, func(in interface{}) (interface{}, bool, error) {
@@ -398,13 +466,88 @@ func (c *c06Case) doCAS(n int, key string, ops string) {
 		c.emit(ev, "PANIC:"+p)
 		return
 	}
+	hook.armed = nil
 	c.waitWatchers(n, false)
 	tn := t0
 	if t1 != t0 {
 		// the second ticked during the call: read the stamp the implementation wrote (if it wrote one)
 		tn = c.readStamp(n, key, before, t0, t1)
 	}
+	if other != "" {
+		if hook.fired {
+			ilEnc = "undecodable"
+			if v, err := ring.GetCodec().Decode(hook.last); err == nil {
+				ilEnc = c06EncVal(v, c.base)
+			}
+		}
+		c.emit(ev, itoa(int(t0))+"!"+itoa(int(tn))+"!"+res+"!"+c.snap(n)+"!"+ilMsg+"!"+ilChg+"!"+ilEnc)
+		return
+	}
 	c.emit(ev, itoa(int(t0))+"!"+itoa(int(tn))+"!"+res+"!"+c.snap(n))
+}
+
+// scriptInterleave: the FIRST write of a key on a node, with a second update of the same key merged while the
+// first one's broadcast is being encoded; then ordinary traffic.
+func (c *c06Case) scriptInterleave() {
+	r := c.r
+	n := r.intn(c.o.nNodes)
+	key := pick(r, []string{"r1", "r2"})
+	i := r.intn(len(c06RingIDs))
+	id, other := c06RingIDs[i], c06RingIDs[(i+1+r.intn(len(c06RingIDs)-1))%len(c06RingIDs)]
+	if r.chance(1, 3) {
+		// the node has other keys already
+		okey := "r2"
+		if key == "r2" {
+			okey = "r1"
+		}
+		dl, _ := c.nextDelta(okey + id)
+		c.doCAS(n, okey, "hb:"+id+":"+itoa(dl)+":A:3")
+	}
+	dl, _ := c.nextDelta(key + id)
+	c.doCASx(n, key, "hb:"+id+":"+itoa(dl)+":"+stateCode[pick(r, c06States)]+":"+itoa(1+r.intn(15)), other)
+	c.doGossip(n)
+	b := (n + 1) % c.o.nNodes
+	for m := range c.pool {
+		c.doDeliver(b, m)
+	}
+	c.doSettle("st")
+}
+
+// scriptRecreate: a watched key is written, deleted (KV.Delete), removed by cleanupObsoleteEntries and then written
+// again: the per-key store version starts again at 1. With delayed notifications the watcher is woken once for
+// all the new writes, when the new incarnation has reached exactly the version the watcher saw last.
+func (c *c06Case) scriptRecreate() {
+	r := c.r
+	n := r.intn(c.o.nNodes)
+	key := pick(r, []string{"r1", "r2"})
+	next := 0
+	write := func(node int) {
+		id := c06RingIDs[next%len(c06RingIDs)]
+		next++
+		dl, ok := c.nextDelta(key + id)
+		if !ok {
+			return
+		}
+		c.doCAS(node, key, "hb:"+id+":"+itoa(dl)+":"+stateCode[pick(r, c06States)]+":"+itoa(1+r.intn(15)))
+	}
+	c.doWatch(n, false, key)
+	if r.chance(1, 2) {
+		c.doWatch(n, true, "r")
+	}
+	k := 1 + r.intn(2)
+	for i := 0; i < k; i++ {
+		write(n)
+	}
+	if r.chance(1, 2) {
+		c.doSettle("st")
+	}
+	c.doDelete(n, key)
+	c.doSettle("st") // the watcher has been handed version k+1
+	c.doCleanup(n)
+	for i := 0; i < k+1; i++ {
+		write(n) // coalesced: notifications are delayed until the next tick
+	}
+	c.doSettle("st")
 }
 
 // readStamp finds the timestamp of a tombstone created by the last CAS (one that was not a tombstone before).
@@ -513,7 +656,7 @@ func c06CleanVal(v interface{}, base int64) bool {
 			if i.State == ring.LEFT && len(i.Tokens) > 0 {
 				return false
 			}
-			if _, ok := stateCode[i.State]; !ok || !sane(i.Timestamp) || id == "" || !c06CleanName(id) || !c06CleanName(strings.ReplaceAll(i.Addr, "-", "")) || !c06CleanName(i.Zone) {
+			if _, ok := stateCode[i.State]; !ok || !sane(i.Timestamp) || !sane(i.ReadOnlyUpdatedTimestamp) || id == "" || !c06CleanName(id) || !c06CleanName(strings.ReplaceAll(i.Addr, "-", "")) || !c06CleanName(i.Zone) {
 				return false
 			}
 		}
@@ -675,13 +818,23 @@ func (c *c06Case) doPushPull(a, b int, mode string, arg int) {
 	if mode != "" {
 		ev = "ppx!" + itoa(a) + "!" + itoa(b) + "!" + mode + "!" + itoa(arg)
 	}
+	// memberlist passes join=true on the initial join, on fast-join and on every periodic re-join, join=false on the
+	// periodic push/pull: the state handed over must be the same (the model's LocalState has no such parameter)
+	join := false
+	if mode == "" {
+		join = c.ppN%2 == 1
+		c.ppN++
+		if join {
+			ev = "ppj!" + itoa(a) + "!" + itoa(b)
+		}
+	}
 	var data []byte
 	storeA := c.storeStr(a)
 	before := c.snap(b)
 	var pairs []string
 	skipped := false
 	p := guarded(func() {
-		data = c.nodes[a].kv.LocalState(false)
+		data = c.nodes[a].kv.LocalState(join)
 		if mode == "nokey" {
 			data = c06EmptyFirstKey(data)
 		} else if mode != "" {
@@ -694,7 +847,7 @@ func (c *c06Case) doPushPull(a, b int, mode string, arg int) {
 				return
 			}
 		}
-		c.nodes[b].kv.MergeRemoteState(data, false)
+		c.nodes[b].kv.MergeRemoteState(data, join)
 	})
 	if p != "" {
 		c.emit(ev, "PANIC:"+p)
@@ -1253,7 +1406,15 @@ func (c *c06Case) genRingOps(n int, key string) string {
 			if c.o.gcOld && r.chance(1, 4) {
 				st = "X"
 			}
-			ops = append(ops, "hb:"+id+":"+itoa(d)+":"+st+":"+itoa(r.intn(16)))
+			mask := r.intn(16)
+			// read-only toggles (no extra random draw: the case streams stay as they were)
+			switch (d + mask) % 5 {
+			case 0:
+				mask += 16
+			case 1:
+				mask += 32
+			}
+			ops = append(ops, "hb:"+id+":"+itoa(d)+":"+st+":"+itoa(mask))
 		}
 	}
 	if len(ops) == 0 {
@@ -1385,6 +1546,12 @@ func (c *c06Case) run() (cfg, events, obs string) {
 	}
 	if o.script == "firstvalue" {
 		c.scriptFirstValue()
+	}
+	if o.script == "interleave" {
+		c.scriptInterleave()
+	}
+	if o.script == "recreate" {
+		c.scriptRecreate()
 	}
 	for step := 0; step < o.nEvents; step++ {
 		n := r.intn(o.nNodes)
@@ -1610,6 +1777,14 @@ func runC06(e *env) {
 	// key-level Delete next to live keys: delete one key, push the full state (both key orders occur)
 	c06RunMany(e, "C06.run", 150*e.scale, 8, func(i int, r *rng) c06Opts {
 		return c06Opts{nNodes: 2 + r.intn(3), mult: 2, lit: 0, keyDelete: true, ni: r.chance(1, 5), nEvents: r.intn(12), removal: 20, script: "delpush"}
+	})
+	// a deleted key is cleaned up and re-created under a watcher (the per-key version restarts)
+	c06RunMany(e, "C06.run", 60*e.scale, 11, func(i int, r *rng) c06Opts {
+		return c06Opts{nNodes: 2 + r.intn(2), mult: 2, lit: 0, keyDelete: true, ni: true, nEvents: r.intn(8), removal: 15, script: "recreate"}
+	})
+	// the first write of a key with a second merge interleaved while its broadcast is encoded
+	c06RunMany(e, "C06.run", 60*e.scale, 12, func(i int, r *rng) c06Opts {
+		return c06Opts{nNodes: 2 + r.intn(2), mult: 1 + r.intn(3), lit: pick(r, []int{0, 300}), nEvents: r.intn(8), removal: 15, script: "interleave"}
 	})
 	// key-level Delete (the Deleted / UpdateTime register): the deleted keys themselves are correspondence only
 	c06RunMany(e, "C06.run", 100*e.scale, 6, func(i int, r *rng) c06Opts {
